@@ -272,6 +272,11 @@ int op_num(int n, char **t) {
         int64_t r = htp_parse_chunked_length(a, al, &ext);
         printf("%lld %d", (long long) r, ext); free(a); return 1;
     }
+    if (!strcmp(t[0], "status") && n == 2) {
+        unsigned char *a; long al = hex_parse(t[1], &a); if (al < 0) return 0;
+        bstr *x = bstr_dup_mem(a, al);
+        printf("%d", htp_parse_status(x)); bstr_free(x); free(a); return 1;
+    }
     if (!strcmp(t[0], "port") && n == 2) {
         /* htp_parse_port is static: reach it through htp_parse_hostport with a fixed host "h:" prefix
            is not byte-exact (trimming); the `fn hostport` family covers it. Here: the same arithmetic
